@@ -364,6 +364,12 @@ func genC03Compiled(t *rapid.T) (*c03Compiled, []c03Probe) {
 			continue
 		}
 		used[k] = true
+		if name != "" && rapid.IntRange(0, 3).Draw(t, "mapcase") == 0 {
+			name = strings.ToUpper(name[:1]) + name[1:] // map declarations are case-insensitive like every name
+			if len(name) > 3 {
+				name = name[:len(name)-2] + strings.ToUpper(name[len(name)-2:])
+			}
+		}
 		cc.Maps = append(cc.Maps, kit.Line{K: kind, Owner: name, Wild: wild, MapID: rapid.SampledFrom(mapIDs[1:]).Draw(t, "mapid"), TTL: -1})
 	}
 	np := rapid.IntRange(8, 30).Draw(t, "nprobes")
